@@ -5,7 +5,7 @@ Class E (bounded-exhaustive exploration): the solver enumerates every project sh
 definition of the exported name before/after the import x consumer form x import cycle x zope interfaces x field-documented
 attribute); the real System.process() runs on each, and the invariants I1..I8 of the statement are evaluated on the result.
 """
-from lib.hx import harness, pick, pickb, done, tier, PART, note, known
+from lib.hx import harness, pick, pickb, done, tier, PART, note, known, sample
 
 PROPERTY = "C02"
 LEVEL = "exploration"
@@ -23,6 +23,7 @@ D = T.DIMS
 
 def check_shape(kw, zope, fielddoc):
     sources, exporter, newname = T.gen(zope=zope, fielddoc=fielddoc, **kw)
+    sample(shape=kw, sources={k: v[0] for k, v in sources.items()})
     try:
         s = PJ.build(sources)
     except Exception as e:
